@@ -17,7 +17,10 @@ use std::future::Future;
 use std::mem::MaybeUninit;
 use std::pin::Pin;
 use std::task::{Context, Poll, RawWaker, RawWakerVTable, Waker};
+#[cfg(not(all(excsn_fibre_verif, excsn_fibre_verif_shuttle)))]
 use std::time::{Duration, Instant};
+#[cfg(all(excsn_fibre_verif, excsn_fibre_verif_shuttle))]
+use {crate::internal::sync::Instant, std::time::Duration};
 
 // `hint::spin_loop` routes through the facade so the PARK_CONSUMING waits below
 // are scheduler yield-points loom can explore rather than branch-cap blowups.
